@@ -100,6 +100,50 @@ def abort_everywhere():
                 bad.append({'key': f'abort-changes-mdib:{name}', 'detail': f'{name} transaction aborted after {k} steps changed the MDIB: {mt.diff(before, after)[:3]}'})
             if len(reports) != n_reports:
                 bad.append({'key': f'abort-publishes:{name}', 'detail': f'{name} transaction aborted after {k} steps published a result'})
+    # history: committed updates, committed removal, ABORTED re-creation, committed re-creation - the aborted attempt
+    # must leave no trace (incl. the remembered versions), so the final re-creation continues the version counters
+    victim = mh[-2]
+    for _ in range(2):
+        with mdib.metric_state_transaction() as mgr:
+            mgr.get_state(victim).ActivationState = pm_types.ComponentActivation.OFF
+    with mdib.descriptor_transaction() as mgr:
+        mgr.get_descriptor(victim).SafetyClassification = pm_types.SafetyClassification.MED_B
+    old_d = mdib.descriptions.handle.get_one(victim)
+    old_s = mdib.states.descriptor_handle.get_one(victim)
+    dv, sv, parent, cls_d = old_d.DescriptorVersion, old_s.StateVersion, old_d.parent_handle, type(old_d)
+    with mdib.descriptor_transaction() as mgr:
+        mgr.remove_descriptor(victim)
+
+    def recreate(mgr):
+        d = cls_d(handle=victim, parent_handle=parent)
+        d.Type = pm_types.CodedValue('4711')
+        d.Unit = pm_types.CodedValue('u')
+        d.Resolution = Decimal('0.1')
+        d.MetricCategory = pm_types.MetricCategory.MEASUREMENT
+        d.MetricAvailability = pm_types.MetricAvailability.CONTINUOUS
+        mgr.add_descriptor(d)
+        mgr.add_state(mdib.data_model.mk_state_container(d))
+    before = mt.snapshot(mdib)
+    try:
+        with mdib.descriptor_transaction() as mgr:
+            recreate(mgr)
+            raise Abort
+    except Abort:
+        pass
+    cases += 1
+    after = mt.snapshot(mdib)
+    if after != before:
+        bad.append({'key': 'abort-changes-mdib:recreate', 'detail': f'aborted re-creation of a removed descriptor changed the MDIB: {mt.diff(before, after)[:3]}'})
+    try:
+        with mdib.descriptor_transaction() as mgr:
+            recreate(mgr)
+        new_d = mdib.descriptions.handle.get_one(victim)
+        new_s = mdib.states.descriptor_handle.get_one(victim)
+        cases += 1
+        if new_d.DescriptorVersion <= dv or new_s.StateVersion <= sv:
+            bad.append({'key': 'abort-changes-mdib:recreate-versions', 'detail': f'after an aborted attempt the re-created {victim} restarts at DescriptorVersion {new_d.DescriptorVersion} / StateVersion {new_s.StateVersion} (before removal {dv} / {sv})'})
+    except Exception as ex:  # noqa: BLE001
+        bad.append({'key': 'recreate-failed', 'detail': repr(ex)[:200]})
     return cases, bad
 
 
